@@ -3,6 +3,7 @@ import datetime
 import enum
 import json
 import logging
+import re
 from pathlib import Path, PosixPath, WindowsPath
 from typing import Any, AnyStr, Callable, IO, List, Optional, Union, cast
 from typing_extensions import Protocol, Type
@@ -157,6 +158,13 @@ class Dumper(yaml.SafeDumper):
                 elif event.tag == 'tag:yaml.org,2002:timestamp':
                     self.stream.write(json.dumps(
                         event.value, ensure_ascii=not self.allow_unicode))
+                elif (
+                        event.tag == 'tag:yaml.org,2002:int'
+                        and not re.fullmatch('-?(0|[1-9][0-9]*)', event.value)):
+                    # hexadecimal and the like, JSON has decimal only
+                    self.stream.write(str(
+                        yaml.constructor.SafeConstructor().construct_yaml_int(
+                            yaml.ScalarNode(event.tag, event.value))))
                 else:
                     self.stream.write(event.value)
 
